@@ -9,14 +9,15 @@ META = {"id": "id", "description": "description", "problem.severity": "severity"
 
 def value(rng, key):
     if key == "id":
-        return rng.choice(["java/", "android/", "x-"]) + rng.choice(["Rule", "weak.hash", "a_b", "R2D2"]) + str(rng.randint(0, 99))
+        return rng.choice(["java/", "android/", "x-", "*", "**/"]) + rng.choice(["Rule", "weak.hash", "a_b", "R2D2"]) + str(rng.randint(0, 99)) + rng.choice(["", "", "", "/*", "*", "/**", ".*"])
     if key == "problem.severity":
         return rng.choice(["warning", "WARNING", "Error", "error", "note", "CRITICAL"])
     if key == "security-severity":
         return "%d.%d" % (rng.randint(0, 9), rng.randint(0, 9))
     if key == "ruleprovider":
         return rng.choice(["java", "android", "acme corp"])
-    words = ["Use", "of", "x", "&&", "||", "detected.", "64-bit", "FROM", "SELECT", "WHERE", "predicate", "(a,b)", "\"quoted\"", "it's", "<b>", "ünï", "a=b", "@at", "*star", "100%", "back\\slash", "semi;colon"]
+    words = ["Use", "of", "x", "&&", "||", "detected.", "64-bit", "FROM", "SELECT", "WHERE", "predicate", "(a,b)", "\"quoted\"", "it's", "<b>", "ünï", "a=b", "@at", "*star", "100%", "back\\slash", "semi;colon",
+             "javax.crypto.*", "*", "**", "glob/**", "star*", "*both*", "@", "a*b", "/*x", "tab\tinside"]
     n = rng.randint(1, 8)
     ws = [rng.choice(words) for _ in range(n)]
     sep = rng.choice([" ", " ", "  "])
